@@ -84,6 +84,11 @@ func (c *declChecker) check() []error {
 			for _, argArg := range descrAtom.Args[1:] {
 				c.checkStringConstant(argArg)
 			}
+		case ast.DescrMode:
+			// Rule checking indexes a mode by argument position.
+			if len(descrAtom.Args) != len(p.Args) {
+				c.errs = append(c.errs, fmt.Errorf("mode atom must have one mode per argument, got %d for %d arguments", len(descrAtom.Args), len(p.Args)))
+			}
 		default:
 			// We ignore unknown descr atoms.
 		}
